@@ -225,6 +225,16 @@ class Universe:
                 bt['effects'].append(eid)
         for a in self.base_attrs:
             bt['attrs'].setdefault(a, r.choice([Fraction(1, 4), Fraction(1, 2), Fraction(3, 4)]))
+        # a chance of exactly zero is still a chance: the effect stays a side effect that can be switched
+        for eid in self.side_effect_ids:
+            if r.random() < 0.3:
+                bt['attrs'][self.effects[eid]['chance']] = Fraction(0)
+        # ... and an effect whose chance attribute has no value on the booster (nothing on the type, no default) is
+        # no side effect at all: not listed, not switchable, skipped by the random roll
+        if r.random() < 0.25:
+            ca = self.effects[self.side_effect_ids[-1]]['chance']
+            if self.attrs[ca]['default'] is None:
+                bt['attrs'].pop(ca, None)
         ft = self.types[self.misc_types['fighter'][0]]
         for aid in self.ability_ids:
             if r.random() < 0.8:
